@@ -17,7 +17,7 @@ META = common.meta(
 
 def tasks(tier, seed):
     out = []
-    n = 96 if tier == 'quick' else 800
+    n = 96 if tier == 'quick' else common.thorough(800)
     for k in range(n):
         out.append(('vt.props.c12', 't3_slim', {'seed': seed, 'k': k, 'backend': 'T3', 'd': 2 + k % 4, 'cyclic': (k // 4) % 2 == 1,
                                                 'hom': (k // 8) % 3 == 2}))
